@@ -79,6 +79,10 @@ func genSchedCfg(g *sched.Rand, background bool) sched.Config {
 	if g.Intn(3) == 0 {
 		sc.TimeEvery = 10 + g.Intn(60)
 	}
+	// half of the runs also deschedule a task right after it released a lock (one release in two to five)
+	if g.Intn(2) == 0 {
+		sc.UnlockYield = 2 + g.Intn(4)
+	}
 	return sc
 }
 
